@@ -11,6 +11,7 @@ import (
 
 	disputetypes "github.com/tellor-io/layer/x/dispute/types"
 	bridgetypes "github.com/tellor-io/layer/x/bridge/types"
+	oracletypes "github.com/tellor-io/layer/x/oracle/types"
 	reportertypes "github.com/tellor-io/layer/x/reporter/types"
 
 	"cosmossdk.io/collections"
@@ -84,6 +85,11 @@ func (PoolMonitor) Post(e *Explorer, before, w *World, pre interface{}, ev *Even
 	grow := b.Add(n).Sub(p.excessB.Add(p.excessN))
 	if !b.IsNegative() && !n.IsNegative() && !p.excessB.IsNegative() && !p.excessN.IsNegative() && grow.GT(math.NewInt(p.origins+1)) {
 		fail("pool-excess", fmt.Sprintf("pools grew %s beyond the ledger in one transition (at most %d returned entries)", grow, p.origins))
+	}
+	// ... and never shrinks: whatever leaves or enters the ledger leaves or enters the pools by the same amount, so a
+	// transition that credits validators with more than the pools received is caught even while older dust still covers it
+	if grow.IsNegative() {
+		fail("pool-excess-shrank", fmt.Sprintf("validators and unbonding entries were credited %s more than the staking pools received in this transition (excess %s -> %s)", grow.Neg(), p.excessB.Add(p.excessN), b.Add(n)))
 	}
 	// state predicates are reported at the transition that breaks (or worsens) them
 	if b.IsNegative() && (!p.excessB.IsNegative() || b.LT(p.excessB)) {
@@ -397,6 +403,18 @@ func (AggMonitor) Post(e *Explorer, before, w *World, pre interface{}, ev *Event
 		if !o2.Flagged && n2.Flagged {
 			e.RC.Count("aggregates_flagged", 1)
 			n2.Flagged = false
+			// soundness of the flag: some dispute names the report that determined this aggregate
+			found := false
+			for _, d := range w.Disputes() {
+				for _, r := range append([]oracletypes.MicroReport{d.InitialEvidence}, derefReports(d.AdditionalEvidence)...) {
+					if r.Reporter == a.Agg.AggregateReporter && bytes.Equal(r.QueryId, a.QueryId) && r.BlockNumber == a.Agg.MicroHeight {
+						found = true
+					}
+				}
+			}
+			if !found {
+				fail("flagged-without-dispute", fmt.Sprintf("aggregate %s became flagged but no dispute names the report that determined it (reporter %s, height %d)", k, short(a.Agg.AggregateReporter), a.Agg.MicroHeight))
+			}
 		}
 		if o2.String() != n2.String() {
 			fail("altered", fmt.Sprintf("a stored aggregate was altered: %s\n old=%v\n new=%v", k, o2, n2))
@@ -429,6 +447,26 @@ func (AggMonitor) Post(e *Explorer, before, w *World, pre interface{}, ev *Event
 	for _, a := range old {
 		if n, ok := idx[fmt.Sprintf("%x/%d", a.QueryId, a.Ts)]; ok && n.Agg.Flagged != a.Agg.Flagged {
 			changed = true
+		}
+	}
+	// completeness of the flag: when a dispute becomes funded, every aggregate determined by the disputed report is flagged
+	wasOpen := map[uint64]disputetypes.DisputeStatus{}
+	for _, d := range before.Disputes() {
+		wasOpen[d.DisputeId] = d.DisputeStatus
+	}
+	for _, d := range w.Disputes() {
+		st, existed := wasOpen[d.DisputeId]
+		if d.DisputeStatus != disputetypes.Voting || d.DisputeRound > 1 || (existed && st != disputetypes.Prevote) {
+			continue
+		}
+		r := d.InitialEvidence
+		for _, a := range now {
+			if bytes.Equal(a.QueryId, r.QueryId) && a.Agg.AggregateReporter == r.Reporter && a.Agg.MicroHeight == r.BlockNumber {
+				e.RC.Count("disputed_determining_reports", 1)
+				if !a.Agg.Flagged {
+					fail("not-flagged-on-dispute", fmt.Sprintf("dispute %d on the report of %s at height %d became funded, but the aggregate %x/%d it determined is not flagged", d.DisputeId, short(r.Reporter), r.BlockNumber, a.QueryId[:4], a.Ts))
+				}
+			}
 		}
 	}
 	if changed {
@@ -588,4 +626,14 @@ func checkNewSnapshots(e *Explorer, before, w *World, all []AggKV, fail func(ora
 		}
 		return false, nil
 	})
+}
+
+func derefReports(l []*oracletypes.MicroReport) []oracletypes.MicroReport {
+	var out []oracletypes.MicroReport
+	for _, r := range l {
+		if r != nil {
+			out = append(out, *r)
+		}
+	}
+	return out
 }
